@@ -271,10 +271,10 @@ def worker(ctx):
     todo = [('corpus', c[i]) for k, i in enumerate(idx[:cfg['n_corpus']]) if ctx.mine(k)]
     todo += [('special', s) for k, (s, _) in enumerate(G.special()) if ctx.mine(k)]
     # ladders: >= 10 simultaneously open closures, number recycling
-    for k in range(8, 40):
+    for k in range(8, 40 if ctx.tier == 'quick' else 70):
         if ctx.mine(k):
             lad = G.ladder(k)
-            for _ in range(3):
+            for _ in range(3 if ctx.tier == 'quick' else 10):
                 ctx.evaluations += 1
                 roundtrip(ctx, lad, rng.choice(['r', 'ra', 'rm', '']), 'ladder(%d)' % k, 'kekule')
     for tag, s in todo:
